@@ -368,4 +368,100 @@ theorem supportsGo1_getD (prevs vs : List Q) (j : Nat) (hj : j < vs.length) :
       rw [ih (prevs ++ [v]) j (by simpa using hj)]
       simp
 
+/-! ### `normalizeValue` on the declared range: into [-1, 1], sign = side of the default, injective -/
+
+theorem clamp_id (v lo hi : Q) (h1 : lo ≤ v) (h2 : v ≤ hi) : qmax (qmin v hi) lo = v := by
+  unfold qmax qmin
+  rw [if_pos h2]
+  split
+  · next c => exact le_antisymm h1 c
+  · rfl
+
+/-- on [lo, hi]: the normalised value, by cases -/
+theorem normalize_cases (v lo d hi : Q) (h : lo ≤ d ∧ d ≤ hi) (h1 : lo ≤ v) (h2 : v ≤ hi) :
+    (v < d ∧ normalizeValue v lo d hi = some ((v - d) / (d - lo)))
+    ∨ (v = d ∧ normalizeValue v lo d hi = some 0)
+    ∨ (d < v ∧ normalizeValue v lo d hi = some ((v - d) / (hi - d))) := by
+  unfold normalizeValue
+  rw [if_neg (by simpa using h)]
+  simp only [clamp_id v lo hi h1 h2]
+  rcases lt_trichotomy v d with c | c | c
+  · left
+    refine ⟨c, ?_⟩
+    have hlo : lo ≠ d := ne_of_lt (lt_of_le_of_lt h1 c)
+    have hlh : lo ≠ hi := ne_of_lt (lt_of_lt_of_le (lt_of_le_of_lt h1 c) h.2)
+    rw [if_neg (by intro e; rcases e with e | e; exact absurd e (ne_of_lt c); exact hlh e), if_pos (Or.inl ⟨c, hlo⟩)]
+  · right; left
+    exact ⟨c, by rw [if_pos (Or.inl c)]⟩
+  · right; right
+    refine ⟨c, ?_⟩
+    have hhi : hi ≠ d := ne_of_gt (lt_of_lt_of_le c h2)
+    have hlh : lo ≠ hi := ne_of_lt (lt_of_le_of_lt h.1 (lt_of_lt_of_le c h2))
+    rw [if_neg (by intro e; rcases e with e | e; exact absurd e (ne_of_gt c); exact hlh e),
+      if_neg (by intro e; rcases e with e | e; exact absurd e.1 (not_lt.mpr (le_of_lt c)); exact hhi e.2)]
+
+/-- every position inside the declared range normalises into [-1, 1] -/
+theorem normalize_in_box (v lo d hi x : Q) (h : lo ≤ d ∧ d ≤ hi) (h1 : lo ≤ v) (h2 : v ≤ hi)
+    (hx : normalizeValue v lo d hi = some x) : -1 ≤ x ∧ x ≤ 1 := by
+  rcases normalize_cases v lo d hi h h1 h2 with ⟨c, e⟩ | ⟨c, e⟩ | ⟨c, e⟩
+  · rw [e] at hx; cases hx
+    have hp : 0 < d - lo := by linarith
+    constructor
+    · rw [le_div_iff₀ hp]; linarith
+    · have : (v - d) / (d - lo) ≤ 0 := div_nonpos_of_nonpos_of_nonneg (by linarith) (le_of_lt hp)
+      linarith
+  · rw [e] at hx; cases hx; constructor <;> norm_num
+  · rw [e] at hx; cases hx
+    have hp : 0 < hi - d := by linarith
+    constructor
+    · have : 0 ≤ (v - d) / (hi - d) := div_nonneg (by linarith) (le_of_lt hp)
+      linarith
+    · rw [div_le_iff₀ hp]; linarith
+
+/-- the sign of the normalised value tells the side of the default -/
+theorem normalize_sign (v lo d hi x : Q) (h : lo ≤ d ∧ d ≤ hi) (h1 : lo ≤ v) (h2 : v ≤ hi)
+    (hx : normalizeValue v lo d hi = some x) : (x < 0 ↔ v < d) ∧ (x = 0 ↔ v = d) ∧ (0 < x ↔ d < v) := by
+  rcases normalize_cases v lo d hi h h1 h2 with ⟨c, e⟩ | ⟨c, e⟩ | ⟨c, e⟩
+  · rw [e] at hx; cases hx
+    have hp : 0 < d - lo := by linarith
+    have hn : (v - d) / (d - lo) < 0 := div_neg_of_neg_of_pos (by linarith) hp
+    exact ⟨⟨fun _ => c, fun _ => hn⟩, ⟨fun e => absurd e (ne_of_lt hn), fun e => absurd e (ne_of_lt c)⟩,
+      ⟨fun e => absurd (lt_trans hn e) (lt_irrefl _), fun e => absurd (lt_trans c e) (lt_irrefl _)⟩⟩
+  · rw [e] at hx; cases hx
+    exact ⟨⟨fun e => absurd e (lt_irrefl _), fun e => absurd (c ▸ e) (lt_irrefl _)⟩, ⟨fun _ => c, fun _ => rfl⟩,
+      ⟨fun e => absurd e (lt_irrefl _), fun e => absurd (c ▸ e) (lt_irrefl _)⟩⟩
+  · rw [e] at hx; cases hx
+    have hp : 0 < hi - d := by linarith
+    have hn : 0 < (v - d) / (hi - d) := div_pos (by linarith) hp
+    exact ⟨⟨fun e => absurd (lt_trans hn e) (lt_irrefl _), fun e => absurd (lt_trans c e) (lt_irrefl _)⟩,
+      ⟨fun e => absurd e (ne_of_gt hn), fun e => absurd e (ne_of_gt c)⟩, ⟨fun _ => c, fun _ => hn⟩⟩
+
+/-- distinct positions inside the range stay distinct after normalisation -/
+theorem normalize_inj (v w lo d hi x : Q) (h : lo ≤ d ∧ d ≤ hi) (hv1 : lo ≤ v) (hv2 : v ≤ hi) (hw1 : lo ≤ w)
+    (hw2 : w ≤ hi) (hv : normalizeValue v lo d hi = some x) (hw : normalizeValue w lo d hi = some x) : v = w := by
+  have sv := normalize_sign v lo d hi x h hv1 hv2 hv
+  have sw := normalize_sign w lo d hi x h hw1 hw2 hw
+  rcases normalize_cases v lo d hi h hv1 hv2 with ⟨c, e⟩ | ⟨c, e⟩ | ⟨c, e⟩
+  · have cw : w < d := sw.1.mp (sv.1.mpr c)
+    rcases normalize_cases w lo d hi h hw1 hw2 with ⟨c2, e2⟩ | ⟨c2, _⟩ | ⟨c2, _⟩
+    · rw [e] at hv; rw [e2] at hw
+      have hp : d - lo ≠ 0 := by intro z; linarith
+      have := Option.some.inj (hv.trans hw.symm)
+      rw [div_left_inj' hp] at this
+      linarith
+    · exact absurd (c2 ▸ cw) (lt_irrefl _)
+    · exact absurd (lt_trans cw c2) (lt_irrefl _)
+  · have cw : w = d := sw.2.1.mp (sv.2.1.mpr c)
+    rw [c, cw]
+  · have cw : d < w := sw.2.2.mp (sv.2.2.mpr c)
+    rcases normalize_cases w lo d hi h hw1 hw2 with ⟨c2, _⟩ | ⟨c2, _⟩ | ⟨c2, e2⟩
+    · exact absurd (lt_trans cw c2) (lt_irrefl _)
+    · exact absurd (c2 ▸ cw) (lt_irrefl _)
+    · rw [e] at hv; rw [e2] at hw
+      have hp : hi - d ≠ 0 := by intro z; linarith
+      have := Option.some.inj (hv.trans hw.symm)
+      rw [div_left_inj' hp] at this
+      linarith
+
+
 end NanoVerif.Var
